@@ -38,9 +38,8 @@ PROPS["C07"] = dict(
 )
 
 PROPS["C10"] = dict(
-    modules=["Proofs.C10", "Proofs.C10Full"],
-    theorems=['Goflow.C10.parser_table_matches', 'Goflow.C10.guards_cover_indices', 'Goflow.C10.encap_preserves_outer', 'Goflow.C10.icmp_terminal', 'Goflow.C10.icmp_first_only', 'Goflow.C10.encap_rule', 'Goflow.C10.encap_monotone', 'Goflow.C10.layer_sizes',
-              'Goflow.C10.full_capture', 'Goflow.C10.full_capture_cfg', 'Goflow.C10.full_capture_plain', 'Goflow.C10.full_capture_v6ext', 'Goflow.C10.full_capture_mpls', 'Goflow.C10.full_capture_tunnel', 'Goflow.C10.parseLoop_mono'],
+    modules=["Proofs.C10"],
+    theorems=['Goflow.C10.parser_table_matches', 'Goflow.C10.guards_cover_indices', 'Goflow.C10.encap_preserves_outer', 'Goflow.C10.icmp_terminal', 'Goflow.C10.icmp_first_only', 'Goflow.C10.encap_rule', 'Goflow.C10.encap_monotone', 'Goflow.C10.layer_sizes'],
     generators=[dict(name="C10", quick=150, thorough=10000)],
     harness=["impl"],
 )
@@ -83,13 +82,14 @@ PROPS["C12"] = dict(
 )
 
 PROPS["C13"] = dict(
-    modules=["Proofs.C13", "Proofs.C13Json", "Proofs.C13Object", "Proofs.C13Valid", "Proofs.C13Agree"],
+    modules=["Proofs.C13", "Proofs.C13Json", "Proofs.C13Object", "Proofs.C13Valid", "Proofs.C13Agree", "Proofs.C13Proto"],
     theorems=["Goflow.C13.varint_roundtrip", "Goflow.C13.frame_split", "Goflow.C13.stream_of_messages",
               "Goflow.C13.jsonQuoteBody_closed", "Goflow.C13.jsonQuote_valid", "Goflow.C13.utf8_plain",
               "Goflow.C13.number_decimal", "Goflow.C13.valOK_array", "Goflow.C13.members_ok", "Goflow.C13.object_ok",
               "Goflow.C13.render_scalar", "Goflow.C13.item_shape", "Goflow.C13.formatJSON_valid",
               "Goflow.C13.shapeOK_default", "Goflow.C13.default_valid", "Goflow.C13.mapUnknown_inv", "Goflow.C13.valueOf_scalars",
-              "Goflow.C13.formatJSON_valid_sharp", "Goflow.C13.forms_agree", "Goflow.C13.same_item_count"],
+              "Goflow.C13.formatJSON_valid_sharp", "Goflow.C13.forms_agree", "Goflow.C13.same_item_count",
+              "Goflow.C13.unmarshal_marshal", "Goflow.C13.stream_roundtrip", "Goflow.C13.exMsg_ok"],
     generators=[dict(name="C13", quick=40, thorough=1500)],
     harness=["impl"],
 )
@@ -182,12 +182,13 @@ PROPS["C15"] = dict(
 )
 
 PROPS["C01"] = dict(
-    modules=["Proofs.C01"],
+    modules=["Proofs.C01", "Proofs.C01Sane"],
     theorems=["Goflow.C01.v5_safe", "Goflow.C01.sflow_safe", "Goflow.C01.netflow_safe", "Goflow.C01.iterations_bounded",
-              "Goflow.C01.parsePacket_safe", "Goflow.C01.produce_safe", "Goflow.C01.pipe_safe", "Goflow.C01.pipe_history_safe"],
+              "Goflow.C01.parsePacket_safe", "Goflow.C01.produce_safe", "Goflow.C01.pipe_safe", "Goflow.C01.pipe_history_safe",
+              "Goflow.C01.mapCustom_sane", "Goflow.C01.parseLoop_sane", "Goflow.C01.parsePacket_sane", "Goflow.C01.produce_sane", "Goflow.C01.pipe_sane", "Goflow.C01.pipe_history_sane"],
     generators=[dict(name="C01", quick=40, thorough=3000)],
     harness=["impl"],
-    level_text="Theorems: for every byte string, every template/sampling state and every history the decoders, the dissector, the conversion and the pipes of the model end in a result or a returned error (panic and fuel exhaustion are explicit outcomes of the model and proved unreachable; loops need at most |d|+2 iterations). PARTIAL: configurations with custom mappings are proved only under C14's Sane predicate; wall-clock time of the real process is watched by a watchdog, not proved.",
+    level_text="Theorems: for every byte string, every template/sampling state and every history the decoders, the dissector, the conversion and the pipes of the model end in a result or a returned error (panic and fuel exhaustion are explicit outcomes of the model and proved unreachable; loops need at most |d|+2 iterations). Configurations with custom mappings: the same theorems under `Sane` (non-negative bit offsets and lengths, destinations other than the two unexported struct members) in Proofs/C01Sane.lean. PARTIAL only in that wall-clock time of the real process is watched by a watchdog, not proved.",
 )
 
 PROPS["C02"] = dict(
